@@ -269,7 +269,7 @@ def gen(run):
 
 
 def unknown_titles(run):
-    cases = ['=Nope!A1', "='No Such'!A1", '=SUM(Nope!A1:B2)', "=INDEX('My Sheets'!A1:B2,1,1)", '=data!A1', "='Data '!A1", '=Nope!A:A', '=Dat!B2+Data!A1', '=!A1', "=''!A1", '=SUM(!A1:B2)']
+    cases = ['=Nope!A1', "='No Such'!A1", '=SUM(Nope!A1:B2)', "=INDEX('My Sheets'!A1:B2,1,1)", '=data!A1', "='Data '!A1", '=Nope!A:A', '=Dat!B2+Data!A1', '=!A1', "=''!A1", '=SUM(!A1:B2)', '=COLUMN(Nope!C1)', "=COLUMN('No Such'!C1:D2)+1"]
     cellmaps = [{(0, 0): 11, (1, 1): 12}, {(0, 0): 21}, {(0, 0): 31}]
     for f in cases:
         klass, terr, lerr = build(TITLES3, cellmaps, [(0, 5, 0, f)])
